@@ -253,7 +253,7 @@ def run_impl_shard(sub, casefile, ncases, ids, outpath, timeout):
         if start < ncases and (rc != 0 or done == 0 or True):
             if start < ncases and (ids[start] not in blocks or trace_of(blocks[ids[start]]) is None):
                 # the case at `start` killed (or hung) the process
-                kind = 'HANG' if rc == -999 else 'ABORT'
+                kind = 'HANG' if rc in (-999, 3) else 'ABORT'
                 partial = blocks.get(ids[start], [])
                 dump = []
                 if 'DUMP-BEGIN' in partial and 'DUMP-END' in partial:
